@@ -12,6 +12,7 @@ pub mod p_cc14;
 pub mod p_nrpn;
 pub mod pollobs;
 pub mod p_meta;
+pub mod p_rt;
 #[cfg(feature = "hm_serde")]
 pub mod p_serde;
 #[cfg(feature = "hm_std")]
@@ -37,6 +38,7 @@ pub fn run_property(ctx: &Ctx) -> Option<Report> {
         "C11" => Some(p_nrpn::run_c11(ctx)),
         #[cfg(feature = "hm_serde")]
         "C19" => Some(p_serde::run_c19(ctx)),
+        "C18" => Some(p_rt::run_c18(ctx)),
         "C15" => Some(p_meta::run_c15(ctx)),
         "C16" => Some(p_meta::run_c16(ctx)),
         "C17" => Some(p_meta::run_c17(ctx)),
@@ -65,6 +67,7 @@ pub fn replay_case(prop: &str, sub: &str, case: &Value) -> Option<CheckResult> {
         "C11" => p_nrpn::replay_c11(sub, case),
         #[cfg(feature = "hm_serde")]
         "C19" => p_serde::replay_c19(sub, case),
+        "C18" => p_rt::replay_c18(sub, case),
         "C15" | "C16" | "C17" => p_meta::replay_meta(case),
         #[cfg(feature = "hm_std")]
         "C12" => p_grammar::replay_c12(sub, case),
